@@ -449,6 +449,17 @@ def run(ctx):
                 if fresh in ('name', 'value') and ident in enum_members(sources):
                     continue   # reserved by Python's Enum itself
                 tasks.append((pname, sources, base, {ident: fresh}, role))
+            pass
+        # private / protected members: the leading underscores are the access level and stay, the rest of the name is free
+        # (also with separator-like fragments: a second double underscore inside the name)
+        for ident in sorted({n for src in sources.values() for n in re.findall(r'\b(_{1,2}[A-Za-z][A-Za-z_0-9]*)\b', src) if not n.endswith('__') and n not in RESERVED}):
+            prefix = ident[:len(ident) - len(ident.lstrip('_'))]
+            for core in ('zq', 'zq__w', ident.lstrip('_') + '__v2', 'x_'):
+                fresh = prefix + core
+                if fresh not in all_names and fresh != ident:
+                    tasks.append((pname, sources, base, {ident: fresh}, 'private-member'))
+        for ident in idents[pname]:
+            role = role_of(sources, ident)
             # names related to OTHER identifiers of the program (classes and functions): proper prefix / extension
             for o in idents[pname]:
                 if o == ident or role_of(sources, o) not in ('class', 'function'):
